@@ -15,6 +15,8 @@ from symex import Adt, Sym, conj, disj, neg
 
 def build(pid, P, R, tier, log_dir):
     import mirx_props as mp
+    if pid == "C02":
+        return [mp.XOb("X-accept_implies_lower_assign", "", "", lambda: run_accept_implies_lower(P, R, mp, log_dir))]
     if pid != "C03":
         return []
     return [mp.XOb("X-check_assign", "", "", lambda: run_check_assign(P, R, mp, log_dir)),
@@ -944,3 +946,57 @@ ERRTYPE_PROGRAMS = [
 def native_error_frame(r, log_dir):
     broken, texts = verdicts(ERRTYPE_PROGRAMS, log_dir, "c03errtype")
     return report(r, log_dir, "errtype", broken, texts, f"{len(ERRTYPE_PROGRAMS)} programs applying `?` before / after closures and across functions are rejected / accepted as documented")
+
+
+# ---- C02: an assignment the checker accepts is an assignment lowering accepts --------------------------------------------------------------
+def run_accept_implies_lower(P, R, mp, log_dir):
+    """Both rule bodies for `name = value` are decided separately against ONE documented rule (X-check_assign: the checker, X-lower_assign: lowering).  If
+    both follow it they agree; if one deviates, the programs of the deviating class are type-checked AND generated natively: accepted-but-not-generated is the
+    C02 violation."""
+    import stmt_props
+    t0 = time.time()
+    rc = run_check_assign(P, R, mp, log_dir)
+    rl = stmt_props.run_assign(P, R, mp, log_dir, 2)
+    r = {"id": "X-accept_implies_lower_assign", "engine": "E2-X mirsmt",
+         "statement": "`name = value`: the type checker's rule (TypeChecker::check_assignment) and lowering's rule (AstLowering, Assignment arm) decide the same way which "
+                      "existing binding an assignment refers to and whether it may be re-assigned - so a program the checker accepts is never refused by code generation "
+                      "with `Cannot reassign immutable variable`",
+         "bound": "both rule bodies as in X-check_assign (C03) and X-lower_assign (C01): scope chains of 0..=2 scopes, every binding kind, lookups as arbitrary answers; "
+                  "agreement = both follow the one documented rule (search the whole scope chain; immutable -> error; mutable -> assign; unbound -> new binding)",
+         "functions_encoded": sorted(set(rc.get("functions_encoded", []) + rl.get("functions_encoded", []))),
+         "paths": (rc.get("paths") or 0) + (rl.get("paths") or 0), "parts": {"checker": rc.get("status"), "lowering": rl.get("status")}}
+    r["wall_s"] = round(time.time() - t0, 2)
+    if rc.get("status") == "held" and rl.get("status") == "held":
+        r.update(status="held", vacuity_ok=True, solver="both rule bodies follow the documented rule on every path: they agree")
+        return r
+    if "inconclusive" in (rc.get("status"), rl.get("status")):
+        r.update(status="inconclusive", reason=f"checker: {rc.get('status')} ({str(rc.get('reason'))[:120]}); lowering: {rl.get('status')} ({str(rl.get('reason'))[:120]})")
+        return r
+    r["vacuity_ok"] = True
+    r["deviating_path"] = str(rc.get("deviating_path") or rc.get("finding") or rl.get("deviating_path") or "")[:400]
+    # native: accepted by the checker => generated
+    import kani
+    texts, broken = [], False
+    for name, src, _exp, _m in ASSIGN_PROGRAMS:
+        res, path = __import__("tc_props").native_typecheck(src, log_dir, f"c02assign_{name}")
+        for prof, line in res.items():
+            if not line.startswith("ACCEPTED"):
+                continue
+            binp = kani.build_replay(prof, True, log_dir)
+            rcode, out, _, to = common.run([binp, "emitrust", path], timeout=120)
+            if "RUST-END" not in out:
+                broken = True
+                texts.append(f"[{prof}] {name}: `incan --check` accepts, code generation fails: {out.strip()[:120]}")
+    text = "; ".join(texts[:6]) or "every accepted assignment program is generated"
+    r["native"] = text
+    kf = [k for k in common.load_known_findings().get("findings", []) if k.get("property") == "C02" and k.get("obligation") == r["id"]]
+    if broken and kf and all(any(w in t for w in kf[0].get("witness_names", [])) for t in texts):
+        r.update(status="known-finding", finding=f"obligation={r['id']} {kf[0].get('what', '')[:300]} ({text[:200]})")
+    elif broken:
+        os.makedirs(os.path.join(common.REPLAYS_DIR, "MIRX"), exist_ok=True)
+        rp = os.path.join(common.REPLAYS_DIR, "MIRX", r["id"] + ".replay")
+        open(rp, "w").write(f"mirx c02 assign\n# {r['deviating_path']}\n# {text}\n")
+        r.update(status="violated", replay=rp, counterexample={"path": r["deviating_path"], "native": text})
+    else:
+        r.update(status="inconclusive", reason=f"a rule body deviates ({r['deviating_path'][:200]}) but every accepted program is generated")
+    return r
